@@ -538,6 +538,7 @@ def run(chk):
         - 3 points per additional rotated segment the deleted (organisation, index) owns (lists of several segments are where
           removal loops go wrong);
         - 1 point for a wildcard in the deleted expression;
+        - 3 points + the number of searchable events of an index that loses an alias (what a stale alias entry would leak);
         - 4 points (also without any delete) when two (organisation, index) pairs whose naive concatenations coincide are live
           at the same time;
         - the continuation: 2 points per later ingest / rotation of another organisation's index of a deleted name, more when
@@ -548,6 +549,13 @@ def run(chk):
             op = st["op"]
             if is_rotate(op):
                 rotated = True
+            if op["op"] == "alias_remove":
+                # an alias is taken away from an index: its searchable events are what a stale alias entry would leak
+                # (one more point when the alias keeps naming another index: shared alias)
+                n_ev = len(st["vis"][str(op["org"])].get(op["idx"], []))
+                if n_ev:
+                    shared = any(op["idx"] not in names and names for e_, names in st["expand"][str(op["org"])].items() if e_ == op["alias"])
+                    best = max(best, 3 + n_ev + (1 if shared else 0))
             if is_del(op) and k > 0:
                 before = h["steps"][k - 1]
                 r = 1 if "*" in op["idx"] else 0
